@@ -283,9 +283,14 @@ def run(ctx):
                             res.violations.append(vlib.Violation("replace refs change the report when %s" % what, inp,
                                                                  expected=after.stdout[:400].decode(), observed=(pr.stdout or pr.stderr)[:400].decode("latin1"),
                                                                  cls="core-useReplaceRefs-true-overrides-no-replace-objects" if "useReplaceRefs" in what else None))
-            # shallow marker: refused however the repository is addressed
+            # shallow marker: refused however the repository is addressed — a regular file in one copy, a symbolic link to the
+            # real file in the other (the layout the Android `repo` tool leaves; git follows the link)
             for gd in (gitdir, bare):
-                with open(os.path.join(gd, "shallow"), "w") as f:
+                target = os.path.join(gd, "shallow")
+                if gd == bare or it % 2:
+                    target = os.path.join(scratch, "shallow-real-%d-%s" % (it, os.path.basename(gd)))
+                    os.symlink(target, os.path.join(gd, "shallow"))
+                with open(target, "w") as f:
                     f.write(sc.oids[commits[0]].hex() + "\n")
             plain = os.path.join(scratch, "plain%d" % it)
             os.makedirs(plain, exist_ok=True)
